@@ -770,6 +770,10 @@ func (g *Gen) val0(v ssa.Value, st *State) Term {
 	case *ssa.Function:
 		t = g.w.fresh("fn", "Int")
 		g.w.assume(fmt.Sprintf("(not (= %s 0))", t.S))
+	case *ssa.FieldAddr, *ssa.IndexAddr:
+		// an address used as a VALUE (stored, passed on): an opaque non-nil reference
+		t = g.w.fresh("adr", "Int")
+		g.w.assumeGlobal(fmt.Sprintf("(not (= %s 0))", t.S))
 	default:
 		t = g.w.freshTyped("v", v.Type())
 	}
@@ -785,7 +789,11 @@ func (g *Gen) resolveAddr(v ssa.Value, st *State) Addr {
 	case *ssa.Alloc:
 		et := x.Type().Underlying().(*types.Pointer).Elem()
 		if g.escaping[x] {
-			// heap object with its own ref; aggregate stored whole under key "obj:<type>"
+			// heap object with its own ref; structs under "obj:<type>" (split per field), everything else under "ptr:<type>"
+			// (the same heap a pointer VALUE of that type addresses, so that &local passed to a callee aliases correctly)
+			if _, isStruct := et.Underlying().(*types.Struct); !isStruct {
+				return Addr{kind: "heap", key: "ptr:" + types.TypeString(et, nil), ref: g.val(x, st), typ: et}
+			}
 			return Addr{kind: "heap", key: "obj:" + types.TypeString(et, nil), ref: g.val(x, st), typ: et}
 		}
 		return Addr{kind: "cell", alloc: x, typ: et}
@@ -1123,6 +1131,10 @@ func (g *Gen) instr(in ssa.Instruction, st *State) {
 	case *ssa.TypeAssert:
 		if !v.CommaOk {
 			g.vals[v] = w.freshTyped("ta", v.Type())
+			if _, isPtr := v.AssertedType.Underlying().(*types.Pointer); isPtr {
+				w.assume(fmt.Sprintf("(not (= %s 0))", g.vals[v].S))
+				g.note("spec used: type assertion to a pointer type yields non-nil (typed-nil interface values and failing assertions not modelled)")
+			}
 		} else if _, isPtr := v.AssertedType.Underlying().(*types.Pointer); isPtr {
 			// x, ok := i.(*T): when ok, x is taken to be non-nil (interface values holding a typed nil pointer are not modelled: listed)
 			val := g.tupleElem(v, 0, v.AssertedType)
@@ -1676,6 +1688,9 @@ func (g *Gen) call0(c *ssa.CallCommon, res ssa.Value, st *State, pos token.Pos) 
 		}
 	}
 	impure := strings.HasPrefix(name, "invoke:") || name == "dynamic" || strings.Contains(name, "github.com/tmpim/casket")
+	if !strings.HasPrefix(name, "builtin:") {
+		g.havocPointees(args, st, "")
+	}
 	if impure && os.Getenv("GOVC_HAVOC_UNKNOWN") != "" {
 		g.havocHeapAll(st, nil)
 		g.note("unknown call %s: heap havocked", name)
@@ -1686,6 +1701,48 @@ func (g *Gen) call0(c *ssa.CallCommon, res ssa.Value, st *State, pos token.Pos) 
 		if _, isTuple := res.Type().(*types.Tuple); !isTuple {
 			setRes(w.freshTyped("r", res.Type()))
 		}
+	}
+}
+
+// havocPointees: memory whose address is handed to a callee that may write through it gets an arbitrary value.
+// Covers direct pointer arguments (address of a local, of a field, of an element) and the pointers stored into a
+// varargs array that is passed as a slice (c.Args(&a, &b)). onlyType != "" restricts to pointees of that Go type.
+func (g *Gen) havocPointees(args []ssa.Value, st *State, onlyType string) {
+	var visit func(a ssa.Value, depth int)
+	visit = func(a ssa.Value, depth int) {
+		pt, ok := a.Type().Underlying().(*types.Pointer)
+		if ok {
+			if onlyType != "" && types.TypeString(pt.Elem(), nil) != onlyType {
+				return
+			}
+			switch x := a.(type) {
+			case *ssa.Alloc:
+				if g.escaping[x] {
+					g.w.storeAddr(g.resolveAddr(x, st), g.w.freshTyped("hv_"+x.Comment, pt.Elem()), st)
+				}
+			case *ssa.FieldAddr, *ssa.IndexAddr:
+				if ad, ok := g.addrs[a]; ok && ad.kind != "unknown" {
+					g.w.storeAddr(ad, g.w.freshTyped("hv", pt.Elem()), st)
+				}
+			}
+			return
+		}
+		if sl, ok := a.(*ssa.Slice); ok && depth == 0 {
+			if al, ok := sl.X.(*ssa.Alloc); ok {
+				for _, r := range *al.Referrers() {
+					if ia, ok := r.(*ssa.IndexAddr); ok {
+						for _, r2 := range *ia.Referrers() {
+							if s, ok := r2.(*ssa.Store); ok && s.Addr == ia {
+								visit(s.Val, 1)
+							}
+						}
+					}
+				}
+			}
+		}
+	}
+	for _, a := range args {
+		visit(a, 0)
 	}
 }
 
@@ -1731,6 +1788,10 @@ func (g *Gen) checkFrameEntries(who string, entries []string, st *State) {
 				break
 			}
 		}
+		if !found && strings.HasPrefix(m, "ptr:") {
+			// the callee writes through pointers of that type; this function holds no such pointer: nothing of ours can change
+			continue
+		}
 		if !found {
 			g.note("spec error in %s: frame entry %q matches no heap", who, m)
 		}
@@ -1738,7 +1799,7 @@ func (g *Gen) checkFrameEntries(who string, entries []string, st *State) {
 }
 
 func heapKeyMatches(key string, spec string) bool {
-	if strings.HasPrefix(spec, "E:") || strings.HasPrefix(spec, "MV:") || strings.HasPrefix(spec, "MD:") || strings.HasPrefix(spec, "ghost:") {
+	if strings.HasPrefix(spec, "E:") || strings.HasPrefix(spec, "MV:") || strings.HasPrefix(spec, "MD:") || strings.HasPrefix(spec, "ghost:") || strings.HasPrefix(spec, "ptr:") {
 		return key == spec
 	}
 	// spec like "UpstreamHost.Conns" or "maxBytesReader.n": struct-name.field -> resolved lazily by suffix of type name; obj: keys hold whole structs
@@ -1796,8 +1857,10 @@ func (g *Gen) callWithContract(callee *ssa.Function, ctr *Contract, args []Term,
 		g.recovered = true
 	}
 	// havoc modifies
-	if len(ctr.Modifies) == 0 {
-		// no frame given: nothing modified
+	for _, m := range ctr.Modifies {
+		if strings.HasPrefix(m, "ptr:") {
+			g.havocPointees(callArgsOf(res), st, strings.TrimPrefix(m, "ptr:"))
+		}
 	}
 	for k, a := range st.heap {
 		for _, m := range ctr.Modifies {
@@ -2109,6 +2172,13 @@ func (g *Gen) invokeWithContract(c *ssa.CallCommon, ctr *Contract, args []Term, 
 		}
 		w.assume(fmt.Sprintf("(=> %s %s)", st.pc, t.S))
 	}
+}
+
+func callArgsOf(res ssa.Value) []ssa.Value {
+	if c, ok := res.(*ssa.Call); ok {
+		return c.Call.Args
+	}
+	return nil
 }
 
 // frameAxioms: for each havocked obj heap, fields not listed in modifies are unchanged for all refs.
